@@ -112,7 +112,8 @@ func c02Barrier(c *fw.Ctx, label string, pub *kit.Client, subs []*kit.Client, to
 			if su.Closed() {
 				c.Violation("subscriber-dropped", fmt.Sprintf("%s: subscriber %d was disconnected by the broker during the run", label, i), nil)
 			} else {
-				c.Inconclusive(fmt.Sprintf("%s: subscriber %d never saw the sentinel: %v", label, i, err))
+				// the sentinel is itself an acknowledged publish to a connected, subscribed session
+				c.Violation("lost:sentinel", fmt.Sprintf("%s: the acknowledged sentinel publish was not written to connected subscriber %d within 90 s (%v); %d other publishes had reached it", label, i, err, len(su.Publishes())), map[string]interface{}{"scenario": label, "subscriber": i})
 			}
 			return false
 		}
